@@ -295,7 +295,15 @@ func (f *File) AddChild(child Box, boxStartPos uint64) {
 		f.isFragmented = true
 		moof := box
 		moof.StartPos = boxStartPos
-		f.startSegmentIfNeeded(moof, boxStartPos)
+		openFragWithoutMoof := false
+		if lastSeg := f.LastSegment(); lastSeg != nil {
+			if lastFrag := lastSeg.LastFragment(); lastFrag != nil && lastFrag.Moof == nil {
+				openFragWithoutMoof = true // Fragment opened by an emsg box, waiting for its moof
+			}
+		}
+		if !openFragWithoutMoof {
+			f.startSegmentIfNeeded(moof, boxStartPos)
+		}
 		currSeg := f.LastSegment()
 		lastFrag := currSeg.LastFragment()
 		if lastFrag == nil || lastFrag.Moof != nil {
